@@ -11,7 +11,7 @@ class _RL(dict):
 UNIT_RLIMIT = _RL({"div_small": 80, "mul_redc": 80})      # unit -> --rlimit (Verus default is 10; 5x head-room over the measured maximum)
 UNIT_TIMEOUT = {"knuth": 1500, "addmul": 900, "mul_redc": 1200}     # unit -> seconds
 UNIT_EXPECT = {       # unit -> minimum number of verified functions on the unchanged tree (vacuity guard)
-    "core": 31, "add": 29, "kernels": 79, "addmul": 71, "addmul_n": 73, "mul": 51, "divd": 45, "div_small": 235, "knuth": 145, "mul_redc": 124, "basics": 22, "pow": 38, "divw": 54, "modular": 70, "spigot": 44, "gcd": 24, "forward": 57, "invring": 36, "bitlen": 70, "shifts": 131, "recip_table": 2, "gcdext": 67, "gcdw": 36, "bits": 60, "conv": 31, "lehmer": 37, "logs": 27, "forward_shift": 81, "fmt_consts": 5,
+    "core": 31, "add": 29, "kernels": 79, "addmul": 71, "addmul_n": 73, "mul": 51, "divd": 45, "div_small": 235, "knuth": 145, "mul_redc": 124, "basics": 22, "pow": 38, "divw": 54, "modular": 70, "spigot": 44, "gcd": 24, "forward": 57, "invring": 36, "bitlen": 70, "shifts": 131, "recip_table": 2, "gcdext": 67, "gcdw": 36, "bits": 78, "conv": 31, "lehmer": 37, "logs": 27, "forward_shift": 81, "fmt_consts": 5,
 }
 
 COMMON_TRUST = [
@@ -151,8 +151,9 @@ PROPS = {
                    "address exactly the stated position and out-of-range indices read false / None / write nothing / panic (byte); leading/trailing zeros and ones, count_ones/zeros, bit_len, byte_len, reverse_bits, "
                    "is_power_of_two, (checked_)next_power_of_two and most_significant_bits equal their definitions over the BITS-wide binary expansion. Verus additionally proves for ALL widths: bit (= bit index of the binary "
                    "expansion of the value, false out of range), set_bit (every bit of the result: the addressed one takes the value, all others unchanged; out-of-range writes nothing; canonical), not (= 2^BITS - 1 - value), "
+                   "&=, |=, ^= by reference (the impls all other bitwise operator shapes forward to: every bit of the result is the and/or/xor of the operand bits; canonical), "
                    "leading_zeros, leading_ones, bit_len, byte_len",
-        level_note="per-width (13 widths for logic/access, 8-11 for the counting functions; loops closed by LIMBS so each harness is complete for its width), not an all-widths proof except bit/set_bit/not/leading_zeros/leading_ones/bit_len/byte_len; "
+        level_note="per-width (13 widths for logic/access, 8-11 for the counting functions; loops closed by LIMBS so each harness is complete for its width), not an all-widths proof except bit/set_bit/not/&=/|=/^=/leading_zeros/leading_ones/bit_len/byte_len; "
                    "count_ones at >= 128 bits is decided by an inductive characterisation (count(0) = 0, setting a clear bit adds 1) instead of a direct comparison; must_panic harnesses prove reachability of the panic",
         technique="Kani contract harnesses on the compiled crate, complete per width + deductive contracts (Verus, all widths) for bit / set_bit / not / leading_zeros / leading_ones / bit_len / byte_len",
         units=["core", "bitlen", "bits"],
